@@ -510,7 +510,8 @@ surface_timeseries = Contract(
                                                              if hasattr(a, "_ghost") else True)),
         ("series_is_nfft_times_the_inverse_transform_of_half_as_many_amplitudes", _series_post),
         ("mean_is_the_zero_frequency_amplitude", _mean_post),
-        ("sample_variance_is_the_spectral_variance_without_the_zero_frequency_bin", _variance_post),
+        # w and u (factor omega_k inside the sums) time out in the solver: their variance identity stays with the bounded check
+        ("sample_variance_is_the_spectral_variance_without_the_zero_frequency_bin", _variance_post, {"z", "x", "v", "y"}),
     ],
     callees={create_fourier_amplitudes.target: create_fourier_amplitudes}, native=_native_ts,
     witness=[_wit_ts(c, fs, n) for c, fs, n in (("z", 2.0, 64), ("w", 0.5, 9), ("x", 10.0, 2000), ("u", 1.0, 128), ("v", 1.0, 16), ("y", 3.0, 33))],
@@ -607,9 +608,55 @@ def _bounded_variance(tier, seed):
             "domain": f"{n} random spectra x (1D: z,w; 2D single bin: all six components), sampling rates 0.5..10 Hz, lengths 8..20000 even and odd, seeds 0,1,random"}
 
 
-BOUNDED = [Bounded("variance_reproducibility_scaling", _bounded_variance)]
+def _bounded_parseval(tier, seed):
+    """the assumed library contract of np.fft.irfft, as stated in this file, against numpy: for n even and len(a) == n/2,
+    x = n*irfft(a, n):  sum x = n Re a_0,  sum x^2 = n (Re a_0^2 + sum_{k>=1} 2|a_k|^2)  (imaginary part of a_0 ignored, Nyquist bin zero-padded)"""
+    import numpy as np
+    rng = np.random.default_rng(seed + 77)
+    fails, evals = [], 0
+    for n in ([8, 10, 64, 250, 1024] if tier == "quick" else [8, 10, 12, 64, 250, 1024, 4096, 20000]):
+        for rep in range(3 if tier == "quick" else 10):
+            m = n // 2
+            a = rng.normal(size=m) + 1j * rng.normal(size=m)
+            y = np.fft.irfft(a, n=n)
+            x = n * y
+            evals += 1
+            p = float((2 * np.abs(a[1:]) ** 2).sum())
+            ok = (len(y) == n and np.isclose(x.sum(), n * a[0].real, rtol=1e-9, atol=1e-9)
+                  and np.isclose((x ** 2).sum(), n * (a[0].real ** 2 + p), rtol=1e-9, atol=1e-9)
+                  and np.isclose(np.var(x), p, rtol=1e-9, atol=1e-12))
+            # without n: 2(len(a)-1) samples
+            ok = ok and len(np.fft.irfft(a)) == 2 * (m - 1)
+            if not ok:
+                fails.append({"n": n, "rep": rep, "what": "Parseval statement for irfft(a, n) with len(a) == n/2 does not hold"})
+    return {"evaluations": evals, "distinct": evals, "failures": fails[:5], "samples": [], "domain": "random complex amplitudes, n in 8..20000 even, len(a) = n/2"}
+
+
+# ---------------------------------------------------------------- lemma: sqrt(c) scaling (over the specification of the amplitudes)
+def _lemma_scaling():
+    """scaling the (interpolated) densities by c >= 0 scales every amplitude term by sqrt(c):
+    sqrt(area (c E) / 2) = sqrt(c) sqrt(area E / 2) for area E >= 0 — hence amplitudes, and by linearity of irfft the series, scale by sqrt(c)"""
+    c, q = z3.Real("c"), z3.Real("q")          # q = area * E / 2
+    s = lambda x: T.uf("sqrt", x)
+    hyps = [c >= 0, q >= 0]
+    goal = s(c * q) == s(c) * s(q)
+    return hyps, goal
+
+
+LEMMAS = [Lemma("scaling.sqrt_of_scaled_radicand_is_sqrt_c_times_sqrt_radicand", _lemma_scaling,
+                "amplitude term of the spectrum scaled by c = sqrt(c) x amplitude term (the term is linear in sqrt(area E / 2))")]
+BOUNDED = [Bounded("variance_reproducibility_scaling", _bounded_variance),
+           Bounded("irfft_parseval_as_assumed", _bounded_parseval, "the assumed Parseval contract of np.fft.irfft checked against numpy")]
 CONTRACTS = [frequency_step, create_fourier_amplitudes, surface_timeseries]
 TRUSTED = ["np.fft.irfft(a, n) returns n real samples, 2(len(a)-1) when n is omitted; np.linspace(start, stop, num, endpoint=False)[k] = start + k (stop-start)/num",
-           "Parseval's identity for irfft and the purity of numpy's default_rng(seed) are library facts: the variance / reproducibility clauses are bounded only"]
+           "ASSUMED (Parseval for numpy's irfft, only for n even and len(a) == n/2, i.e. zero-padded Nyquist coefficient, imaginary part of a_0 ignored): with x_t = n*irfft(a, n)_t, "
+           "sum_t x_t = n Re a_0 and sum_t x_t^2 = n (Re a_0^2 + sum_{k=1}^{n/2-1} 2|a_k|^2); checked numerically by C16.bounded.irfft_parseval_as_assumed",
+           "ASSUMED np.random.default_rng(seed).uniform(lo, hi, shape): the d-th draw is an (uninterpreted) function of (seed, d, index) — identical seeds give identical phases; nothing about its range or about different seeds",
+           "ASSUMED callee: spectrum.interpolate_frequency(f) returns a spectrum of the same class on the requested frequency grid, same directions, no missing densities (values unconstrained; C13)",
+           "complex arithmetic of pyvc/models/cplx.py (pairs of reals; exp(ix) = cos x + i sin x; a DataArray without missing values times a complex array acts through its values)",
+           "WaveSpectrum.frequency_step is verified here; FrequencyDirectionSpectrum.direction_step is verified in C01 and used at the call site"]
 EXPLANATION = ("surface_timeseries proved to return as many samples as time stamps (nfft = 2 floor(n/2)), spaced 1/fs, with the amplitudes requested on the FFT grid k fs/nfft for the caller's component, spectrum and seed; "
-               "variance identities, cos^2/sin^2 split, seed reproducibility and sqrt(c) scaling are bounded checks on the real functions")
+               "create_fourier_amplitudes is under contract: per frequency amp_k = sqrt(area_k E_k / 2) e^{i phi_k} factor_k (1D, six components; 2D z and w as the sum over directions with area = frequency_step x direction_step "
+               "of the interpolated spectrum), |amp_k|^2 = area_k E_k |factor_k|^2 / 2, phases a function of the seed (identical seeds => identical amplitudes); with Parseval for irfft as a stated library assumption the 1D series has "
+               "mean Re a_0 (six components) and sample variance sum_{k>=1} area_k E_k |factor_k|^2 (z, x: sum E df; v, y: 0; the w/u instances sum w^2 E df time out and stay bounded) whenever no radicand is negative; sqrt(c) scaling of every amplitude term is a lemma. "
+               "Bounded: 'differs between seeds', 2D u/v/x/y amplitudes and the unidirectional cos^2/sin^2 split, and all identities again on the real functions")
